@@ -47,17 +47,26 @@ def _oti_env(prog, func, loop):
             fill = n
     if fill is None:
         raise AnalysisError("%s: no loop filling %s found" % (func.short, kd))
+    # the generator K rho Ld + Lm rho K+ - K+ Lm rho - rho Ld K is the Redfield / Lindblad one only with the Hermitian
+    # conjugate K+: the operators are complex in the eigenbasis of a complex Hermitian operator, where the plain
+    # transpose is not the conjugate (it is for real operators only)
     K = Array.opaque("A:" + km, 3)
-    K.dtype_real = True
     Kd = Array.zeros(3, name=kd)
     it = Interp(prog, lenient=False)
     it.stack.append(func)
     it.exec_body([fill], {km: K, kd: Kd})
     it.stack.pop()
-    d = Kd.at("m", "i", "j") - K.at("m", "j", "i")
+    d = Kd.at("m", "i", "j") - K.at("m", "j", "i").conj()
     if normal(d):
-        return ("kd", "the array passed to _OTI as Kd is not the transpose of the one passed as Km: %s"
+        return ("kd", "the array passed to _OTI as Kd is not the Hermitian conjugate of the one passed as Km: %s"
                 % "; ".join(show_normal(normal(Kd.at("m", "i", "j")), 3))), []
+    alloc = [n for n in walk_no_nested(func.node) if isinstance(n, ast.Assign) and norm(n.targets[0]) == kd
+             and isinstance(n.value, ast.Call) and call_name(n.value) in ("zeros", "zeros_like", "empty")]
+    for a_ in alloc:
+        dt = [norm(k_.value) for k_ in a_.value.keywords if k_.arg == "dtype"]
+        if call_name(a_.value) != "zeros_like" and dt and dt[0] in ("numpy.float64", "REAL", "float", "qr.REAL", "numpy.double"):
+            return ("kd", "the array passed to _OTI as Kd is allocated with the real element type %s: the imaginary parts of the "
+                          "conjugated operators are dropped" % dt[0]), []
     # Lm / Ld from the same tensor object
     src = {}
     for n in walk_no_nested(func.node):
